@@ -1,2 +1,137 @@
-(* C19 - placeholder while the proofs are being written *)
-From PV Require Import Dshbak.Dshbak.
+(* C19 - dshbak regroups output losslessly; its host headers mean what pdsh means.
+   Statements only; the model of the script is Dshbak/Dshbak.v, the specification Dshbak/DshbakSpec.v,
+   the proofs Dshbak/Dshbak{Base,Regroup,Coalesce,Compress,Facts}.v.  Wherever the script walks a hash in
+   hash order the model takes the order from an oracle list (oL: labels, oS: suffix groups of a header);
+   every statement holds for all oracles, and every order of the keys is produced by some oracle. *)
+From Coq Require Import Permutation Sorted.
+From PV Require Import Base.DecimalFacts Hostlist.HLDefs Hostlist.HLSpec
+  Dshbak.Dshbak Dshbak.DshbakSpec Dshbak.DshbakBase Dshbak.DshbakRegroup Dshbak.DshbakCoalesce
+  Dshbak.DshbakCompress Dshbak.DshbakFacts.
+Local Open Scope N_scope.
+
+(* the label/body split: a line "blanks label blanks : [blank] text \n" is cut exactly at its label,
+   whatever the text contains (colons, blanks, dividers); a line without colon is ignored *)
+Theorem C19_split_label : forall l : lline, lline_ok l ->
+  split_line (label_text l ++ [10]) = Some (l_tag l, l_body l ++ [10]).
+Proof. exact split_line_label. Qed.
+Print Assumptions C19_split_label.
+
+Theorem C19_split_junk : forall t : bytes, ~ In 58 t -> split_line (t ++ [10]) = None.
+Proof. exact split_line_junk. Qed.
+Print Assumptions C19_split_junk.
+
+(* REGROUP, no option.  For every sequence of labelled and unlabelled lines, in any interleaving,
+   optionally followed by one labelled line WITHOUT newline, and every hash order: every label that
+   occurs gets exactly one block, headed by the label, holding exactly that label's lines in input order
+   (nothing lost, duplicated or moved between hosts). *)
+Theorem C19_regroup : forall (items : list item) (last : option lline),
+  Forall item_ok items -> match last with Some l => lline_ok l | None => True end ->
+  forall oL : list bytes,
+  let s := stream items last in let all := all_items items last in
+  let bs := blocks_normal oL s in
+  NoDup (concat (map b_tags bs)) /\
+  (forall t, In t (concat (map b_tags bs)) <-> lines_of t all <> []) /\
+  (forall b, In b bs -> exists t, b_tags b = [t] /\ b_head b = [t] /\ b_body b = lines_of t all).
+Proof. exact regroup_normal. Qed.
+Print Assumptions C19_regroup.
+
+(* REGROUP, -d DIR: one file per label, named by the label, holding exactly its lines in input order *)
+Theorem C19_regroup_files : forall (items : list item) (last : option lline),
+  Forall item_ok items -> match last with Some l => lline_ok l | None => True end ->
+  forall oL : list bytes,
+  let s := stream items last in let all := all_items items last in
+  let fl := files oL s in
+  NoDup (map fst fl) /\
+  (forall t, In t (map fst fl) <-> lines_of t all <> []) /\
+  (forall t c, In (t, c) fl -> c = concat (lines_of t all)).
+Proof. exact regroup_files. Qed.
+Print Assumptions C19_regroup_files.
+
+(* REGROUP, -c: every label that occurs stands under exactly one header and the block under that
+   header holds exactly that label's lines in input order *)
+Theorem C19_regroup_coalesce : forall (items : list item) (last : option lline),
+  Forall item_ok items -> match last with Some l => lline_ok l | None => True end ->
+  forall (oL : list bytes) (oS : list bytes -> list bytes),
+  let s := stream items last in let all := all_items items last in
+  let bs := blocks_coalesce oL oS s in
+  NoDup (concat (map b_tags bs)) /\
+  (forall t, In t (concat (map b_tags bs)) <-> lines_of t all <> []) /\
+  (forall b t, In b bs -> In t (b_tags b) -> b_body b = lines_of t all).
+Proof. exact regroup_coalesce. Qed.
+Print Assumptions C19_regroup_coalesce.
+
+(* COALESCE, on ANY input bytes: every label of the table under exactly one header; the block holds the
+   lines of each of its labels; no output is printed twice; two labels share a header if and only if
+   their line lists are identical *)
+Theorem C19_coalesce : forall (oL : list bytes) (oS : list bytes -> list bytes) (s : bytes),
+  let bs := blocks_coalesce oL oS s in
+  Permutation (concat (map b_tags bs)) (map fst (table s)) /\
+  (forall b k, In b bs -> In k (b_tags b) -> al_get k (table s) = Some (b_body b)) /\
+  NoDup (map b_body bs) /\
+  (forall a b, In a (map fst (table s)) -> In b (map fst (table s)) ->
+     ((exists blk, In blk bs /\ In a (b_tags blk) /\ In b (b_tags blk)) <-> al_get a (table s) = al_get b (table s))).
+Proof. exact coalesce_any. Qed.
+Print Assumptions C19_coalesce.
+
+(* HEADER.  For every set of host names (distinct; not empty; free of blanks, commas and brackets; shorter
+   than 1023 bytes; no run of digits worth 10^15 or more; at most 10240 of them) and every hash order of
+   the suffix groups: the header text dshbak -c builds (Perl's compress), read by the model of pdsh's C
+   host-list parser with both bracket passes (HLDefs.targets, the function of C01), expands to exactly
+   that set. *)
+Theorem C19_header_expansion : forall (oS : list bytes) (hosts : list bytes), host_set_ok hosts ->
+  exists l, targets (join 44 (compress oS hosts)) = Ok l /\ Permutation l hosts.
+Proof. exact header_expansion_lit. Qed.
+Print Assumptions C19_header_expansion.
+
+(* ... in particular the header of every block of a -c report expands to the labels of that block *)
+Theorem C19_header_of_block : forall (oL : list bytes) (oS : list bytes -> list bytes) (s : bytes) (b : block),
+  In b (blocks_coalesce oL oS s) -> host_set_ok (b_tags b) ->
+  exists l, targets (join 44 (b_head b)) = Ok l /\ Permutation l (b_tags b).
+Proof. exact header_of_block. Qed.
+Print Assumptions C19_header_of_block.
+
+(* the oracle only permutes, and reaches every permutation; the report comes sorted by trailing number *)
+Theorem C19_hash_order_free : forall o keys : list bytes, NoDup keys ->
+  Permutation (pick_order o keys) keys /\ (forall p, NoDup p -> Permutation p keys -> pick_order p keys = p).
+Proof. intros o keys H. split; [apply pick_order_perm; exact H|intros p; apply pick_order_id]. Qed.
+Print Assumptions C19_hash_order_free.
+
+Theorem C19_report_sorted : forall l : list bytes, StronglySorted (fun a b => numkey a <= numkey b) (sortn l).
+Proof. exact sortn_sorted. Qed.
+Print Assumptions C19_report_sorted.
+
+(* ---- non-vacuity ---- *)
+(* foo01-ib foo02-ib foo03-ib foo7-ib are in the domain and compress to foo[01-03,7]-ib *)
+Example C19_nonvacuous_header :
+  let h n := [102;111;111] ++ n ++ [45;105;98] in
+  let hosts := [h [48;49]; h [55]; h [48;51]; h [48;50]] in
+  host_set_ok hosts /\
+  compress [] hosts = [[102;111;111;91;48;49;45;48;51;44;55;93;45;105;98]] /\
+  targets (join 44 (compress [] hosts)) = Ok [h [48;49]; h [48;50]; h [48;51]; h [55]].
+Proof. cbv zeta. split; [|split; vm_compute; reflexivity].
+  split; [|split].
+  - repeat constructor; cbn; intuition discriminate.
+  - repeat constructor; try discriminate; try (cbn; lia); apply short_digit_runs; cbn; lia.
+  - cbn. lia. Qed.
+
+(* padding twins and the 9/10 boundary: n9 n09 n10 n010 give n[09,9-10,010] (as the script prints),
+   never a merged range that would expand to other names *)
+Example C19_nonvacuous_twins :
+  let h n := 110 :: n in
+  compress [] (sort_str [h [57]; h [48;57]; h [49;48]; h [48;49;48]]) =
+    [[110;91;48;57;44;57;45;49;48;44;48;49;48;93]] /\
+  targets [110;91;48;57;44;57;45;49;48;44;48;49;48;93] = Ok [h [48;57]; h [57]; h [49;48]; h [48;49;48]].
+Proof. split; vm_compute; reflexivity. Qed.
+
+(* a labelled stream with interleaving, a colon in the text, a junk line and an unterminated last line *)
+Example C19_nonvacuous_regroup :
+  let a := [97;49] in let b := [98;50] in
+  let items := [Lab (mkll [] a [] true [120;58;121]); Lab (mkll [32] b [32] true []); Junk [122];
+                Lab (mkll [] a [] false [119])] in
+  let last := Some (mkll [] b [] true [118]) in
+  Forall item_ok items /\ lline_ok (mkll [] b [] true [118]) /\
+  lines_of a (all_items items last) = [[120;58;121;10]; [119;10]] /\
+  lines_of b (all_items items last) = [[10]; [118;10]] /\
+  map b_body (blocks_normal [] (stream items last)) = [[[120;58;121;10]; [119;10]]; [[10]; [118;10]]].
+Proof. cbv zeta. repeat split; try (vm_compute; reflexivity);
+  repeat constructor; cbn; try discriminate; try tauto; intuition discriminate. Qed.
